@@ -458,6 +458,20 @@ def m_and_then(ex, a, callee, canon):
     return r
 
 
+@model(r"^Result::or_else$|^Option::or_else$")
+def m_or_else(ex, a, callee, canon):
+    r = a[0]
+    if r.variant in ("Ok", "Some"):
+        return r
+    return ex.call_closure(a[1], [r.f[0]] if r.variant == "Err" and r.f else [])
+
+
+@model(r"^Result::or$|^Option::or$")
+def m_or(ex, a, callee, canon):
+    r = a[0]
+    return r if r.variant in ("Ok", "Some") else a[1]
+
+
 @model(r"^Option::map$|^Result::map$")
 def m_map_opt(ex, a, callee, canon):
     r = a[0]
